@@ -162,6 +162,11 @@ func judgeFinalizer(c *vs.Case, e *Env, t *SyncTrace, pre map[string]any, faultF
 	if wantFinalize {
 		c.NonTrivial()
 	}
+	// a fault-free finalizing sync reaches its finalize hook: nothing in the cluster (orphans that look like
+	// children, say) may keep a dying parent from being finalized
+	if wantFinalize && hasFin && !gc && !faultFired && !conflictFired && len(calls) == 0 {
+		return vs.Violf("C10/finalize-hook-not-called", "parent deleting=%v matches=%v carries the finalizer and a finalize hook is configured, but the fault-free sync never called it (sync error: %v)", deleting, matches, t.Err)
+	}
 	// D. children of a dying parent
 	manage := !deleting || (!gc && afterFin && enabled)
 	if !manage && len(childWrites) > 0 {
@@ -287,8 +292,14 @@ func PropC10(c *vs.Case, f Factory, kind string) error {
 	if err != nil {
 		return fmt.Errorf("harness: %v", err)
 	}
+	var seeds any
+	if c.Prob(1, 3) {
+		// look-alikes around the children: matching orphans, foreign-owned and non-matching objects
+		seeds = SeedStore(c, env, SeedOpts{Max: 4})
+		c.Class("seeded-look-alikes")
+	}
 	var log []string
-	c.Describe(func() any { return map[string]any{"scenario": scn, "steps": log} })
+	c.Describe(func() any { return map[string]any{"scenario": scn, "seeds": seeds, "steps": log} })
 	steps := 3 + c.Int(7)
 	if script != nil {
 		steps = len(script) + c.Int(3)
